@@ -7,7 +7,15 @@
 (*     "reporting"}; start = <<y, m, d>>; span = number of local days;     *)
 (*     omiss / tmiss: increasing sequences of day offsets (0-based, never  *)
 (*     the first or last day) whose usage / temperature is missing.        *)
-(*  out = [res, dq, warn]   dq / warn: sequences of qualified names        *)
+(*     lead / trail: days before the first / after the last day of the span  *)
+(*     that are present in the supplied FRAME but carry no usage.  The        *)
+(*     series entry point trims such days before judging; the statement       *)
+(*     demands the same verdict from every entry point, so they are not part  *)
+(*     of the span.                                                           *)
+(*  out = [res, dq, warn, dqSeries]   sequences of qualified names; dqSeries: *)
+(*     the verdict of the from_series entry point on the same data            *)
+(***************************************************************************)
+(***************************************************************************)
 (* Each timestamp's period runs to the next timestamp; the last one counts *)
 (* zero (the statement's parenthesis), so a span of S days has S - 1       *)
 (* countable days and the thresholds compare against S.                    *)
@@ -67,7 +75,17 @@ WarningOnly == {P \o "extreme_values_detected", "eemeter.data_quality.utc_index"
                 P \o "unable_to_confirm_daily_temperature_sufficiency", P \o "inferior_model_usage",
                 P \o "missing_high_frequency_temperature_data", P \o "missing_high_frequency_meter_data"}
 
+Edge(in) == in.lead + in.trail > 0
+LenName == P \o "incorrect_number_of_total_days"
+CoverageNames == {P \o "too_many_days_with_missing_data", P \o "too_many_days_with_missing_meter_data", P \o "too_many_days_with_missing_temperature_data"}
+EdgeClauses(in, out) ==
+  << <<"WellFormedInputAccepted", out.res = "ok">>,
+     <<"SpanCriterionIgnoresEdgeDaysWithoutUsage", out.res = "ok" =>
+          ((LenName \in Set(out.dq)) <=> (in.span > 365 \/ in.span < 329)) /\ ((LenName \in Set(out.dqSeries)) <=> (LenName \in Set(out.dq)))>>,
+     <<"CoverageVerdictSameFromBothEntryPoints", out.res = "ok" => Set(out.dq) \cap CoverageNames = Set(out.dqSeries) \cap CoverageNames>>,
+     <<"WarningsNeverInTheVerdict", out.res = "ok" => Set(out.dq) \cap WarningOnly = {}>> >>
 Clauses(in, out) ==
+  IF Edge(in) THEN EdgeClauses(in, out) ELSE
   << <<"WellFormedInputAccepted", out.res = "ok">>,
      <<"EveryViolatedCriterionReported", out.res = "ok" => Must(in) \subseteq Set(out.dq)>>,
      <<"OnlyViolatedCriteriaReported", out.res = "ok" => (Set(out.dq) \ WarningOnly) \subseteq May(in)>>,
